@@ -152,9 +152,10 @@ Ltac refute s o f A :=
   exists s, o, f; split; [exact A|]; split; [reflexivity|];
   let E := fresh "E" in (intro E; apply Equiv_st_eqb in E; vm_compute in E; discriminate E).
 
-(* finding 8: a disconnect task that fails in the security setup after repo.Disconnect *)
-Theorem disconnect_setup_failure_refuted : exists s o f, Agree s /\ snd (run_change s o f) = true /\ ~ Equiv (fst (fst (run_change s o f))) s.
-Proof. refute s_one (ODisconnect 0 false false false) (FailMain 1) agree_s_one. Qed.
+(* a disconnect task whose SECOND setup (slot snap) fails: the plug snap's profile was regenerated without the connection
+   that the rollback then puts back *)
+Theorem disconnect_second_setup_failure_refuted : exists s o f, Agree s /\ snd (run_change s o f) = true /\ ~ Equiv (fst (fst (run_change s o f))) s.
+Proof. refute s_one (ODisconnect 0 false false false) (FailMain 2) agree_s_one. Qed.
 Theorem connect_setup_failure_refuted : exists s o f, Agree s /\ snd (run_change s o f) = true /\ ~ Equiv (fst (fst (run_change s o f))) s.
 Proof. refute (mkSt [] [] [] []) (OConnect 0 false false) (FailMain 2) (reload_agree [] (NoDup_nil N)). Qed.
 Theorem connect_undo_hotplug_gone_refuted : exists s o f, Agree s /\ snd (run_change s o f) = true /\ ~ Equiv (fst (fst (run_change s o f))) s.
@@ -162,13 +163,25 @@ Proof. refute (mkSt [(0, mkC true false false true true)] [] [] []) (OConnect 0 
 Theorem forget_undo_refuted : exists s o f, Agree s /\ snd (run_change s o f) = true /\ ~ Equiv (fst (fst (run_change s o f))) s.
 Proof. refute (mkSt [(0, mkC true false true false false)] [] [] []) (ODisconnect 0 true false false) FailAfter (agree_inactive (mkC true false true false false) eq_refl). Qed.
 
-(* what IS kept in the finding-8 class: the persisted conns are untouched, only the repository (and possibly the plug
-   snap's profile) lost the connection *)
-Theorem disconnect_setup_failure_keeps_conns : forall s id forget ad bh k c, (k = 1 \/ k = 2) ->
+(* former finding 8 (repaired by commit 63d7dd9 in /repo): a disconnect / forget task that fails in ANY of its security
+   setup calls leaves the persisted conns untouched and the repository exactly as it was (the connection is put back) *)
+Theorem disconnect_setup_failure_restores : forall s id forget ad bh k c, (k = 1 \/ k = 2) ->
   mem id (s_repo s) = true -> lookup (s_conns s) id = Some c ->
-  let s' := fst (fst (run_change s (ODisconnect id forget ad bh) (FailMain k))) in
-  s_conns s' = s_conns s /\ forall x, mem x (s_repo s') = negb (id =? x) && mem x (s_repo s).
+  let r := run_change s (ODisconnect id forget ad bh) (FailMain k) in
+  snd r = true /\ s_conns (fst (fst r)) = s_conns s /\ forall x, mem x (s_repo (fst (fst r))) = mem x (s_repo s).
 Proof.
   intros s id forget ad bh k c Hk M L. unfold run_change, creates, do_disconnect. rewrite M, orb_true_r, L. cbn [negb].
-  destruct Hk; subst; cbn; (split; [reflexivity | intro x; apply mem_remove]).
+  destruct Hk; subst; change (1 =? 1) with true; change (2 =? 1) with false; change (2 =? 2) with true; cbn iota;
+    cbn [fst snd s_conns s_repo negb]; (split; [reflexivity|]); (split; [reflexivity|]); intro x; rewrite mem_add, mem_remove;
+    (destruct (N.eqb_spec id x); [subst; rewrite M; reflexivity | reflexivity]).
+Qed.
+
+(* ... and when it is the FIRST setup call that fails, everything (profiles included) is as before: this is an instance of
+   failed_change_restores, stated separately as the regression statement for the repaired finding *)
+Theorem disconnect_first_setup_failure_restores : forall s id forget ad bh, Agree s ->
+  snd (run_change s (ODisconnect id forget ad bh) (FailMain 1)) = true ->
+  Equiv (fst (fst (run_change s (ODisconnect id forget ad bh) (FailMain 1)))) s.
+Proof.
+  intros s id forget ad bh A F. apply failed_change_restores; [assumption | | left; assumption].
+  cbn. apply andb_false_r.
 Qed.
